@@ -236,6 +236,17 @@ func exploreLookups() {
 		}
 		R.State(mc.HS(cfg, "a", fmt.Sprint(c)))
 	})
+	// tables at every 8-byte alignment class (the Go allocator only promises 8-byte alignment for these types)
+	if m, n := lib.ProbeLookupAlignment(); strings.HasPrefix(m, "SKIP") {
+		R.SkipHook("address-based lookup hooks / mmap: " + m)
+	} else {
+		R.T(int64(n))
+		if m != "" {
+			R.Fail("lookup/alignment/"+cfg, "probe", map[string]any{"config": cfg, "mismatch": m}, func() bool { mm, _ := lib.ProbeLookupAlignment(); return mm != "" })
+		} else {
+			R.Class(cfg+"/lookups on tables at address mod 16 in {0, 8} (harness-managed memory)", int64(n))
+		}
+	}
 	R.NTs(int64(len(pc) + len(ac)))
 	R.Class(cfg+"/projective tables x 16 indices x 2 flag states", int64(len(pc)))
 	R.Class(cfg+"/affine tables x 16 indices", int64(len(ac)))
